@@ -746,6 +746,42 @@ SYNTH_STATIC = {
     }
 }''',
     # collect an iterator into a Vec (harness helper)
+    # collect::<Result<Vec<_>, E>>() / collect::<Option<Vec<_>>>(): stop at the first Err / None (std's GenericShunt), items pulled lazily in order
+    '__collect_try': '''fn __collect_try(_1: &mut I) -> R {
+    bb0: {
+        _7 = Vec::<T>::new() -> [return: bb1, unwind continue];
+    }
+    bb1: {
+        _2 = __iter_next(copy _1) -> [return: bb2, unwind continue];
+    }
+    bb2: {
+        _3 = discriminant(_2);
+        switchInt(move _3) -> [0: bb6, otherwise: bb3];
+    }
+    bb3: {
+        _4 = move ((_2 as Some).0: T);
+        _8 = __try_is_output(copy _4) -> [return: bb4, unwind continue];
+    }
+    bb4: {
+        switchInt(move _8) -> [0: bb7, otherwise: bb5];
+    }
+    bb5: {
+        _9 = __try_output(move _4) -> [return: bb8, unwind continue];
+    }
+    bb8: {
+        _5 = &mut _7;
+        _6 = Vec::<T>::push(move _5, move _9) -> [return: bb1, unwind continue];
+    }
+    bb6: {
+        _0 = __try_from_output(move _7, const 1_usize) -> [return: bb9, unwind continue];
+    }
+    bb7: {
+        _0 = __try_residual(move _4) -> [return: bb9, unwind continue];
+    }
+    bb9: {
+        return;
+    }
+}''',
     '__drain': '''fn __drain(_1: &mut I) -> Vec {
     bb0: {
         _0 = Vec::<T>::new() -> [return: bb1, unwind continue];
@@ -862,6 +898,8 @@ def as_ref(st, v):
 # ---------------------------------------------------------------- the model table
 def model(ex, st, c, args):
     D = ex.deref_all
+    if c.startswith(('std::option::Option::', 'core::option::Option::', 'std::result::Result::', 'core::result::Result::')):
+        c = c.split('::', 2)[2]
     B = lambda options: ex.branch(st, options)
 
     # ----- control / error plumbing
@@ -1380,6 +1418,22 @@ def model(ex, st, c, args):
         return call_value(ex, st, ad.fn, [args[1]])
 
     # ----- HashMap
+    md = re.fullmatch(r'<(bool|i8|i16|i32|i64|isize|u8|u16|u32|u64|usize|f64|std::string::String|String|Vec<.*>|std::option::Option<.*>|Option<.*>|\(\)) as Default>::default', c)
+    if md:
+        t = md.group(1)
+        if t == 'bool':
+            return z3.BoolVal(False)
+        if t == 'f64':
+            return Fl(z3.FPVal(0.0, F64))
+        if t in INT_BITS:
+            return Int(z3.BitVecVal(0, INT_BITS[t]), t[0] == 'i')
+        if t.endswith('String'):
+            return SStr([])
+        if t.startswith('Vec<'):
+            return VecV([])
+        if t == '()':
+            return mkunit()
+        return none()
     if re.fullmatch(r'<HashMap<.*> as Default>::default', c) or c == 'HashMap::new':
         return HashMapV()
     if re.fullmatch(r'<HashMap<.*> as Clone>::clone', c):
@@ -1647,6 +1701,9 @@ def model(ex, st, c, args):
         return z3.BoolVal(r.variant == (0 if r.ty == 'Result' else 1))
     if c == '__try_output':
         return args[0].fields[0]
+    if c == '__try_residual':
+        r = args[0]
+        return none() if r.ty == 'Option' else Adt('Result', 1, [r.fields[0]])
     if c == '__try_from_output':
         return some(args[0]) if getattr(st, 'try_kind', 'Result') == 'Option' else ok(args[0])
     if c.endswith(' as Iterator>::all'):
@@ -1657,6 +1714,10 @@ def model(ex, st, c, args):
             raw = getattr(st, 'cur_raw', '') or ''
             if 'collect::<std::string::String>' in raw or 'collect::<String>' in raw:
                 return ('BODY', synth_static(ex, '__collect_string'), [Ref(st.new_cell(it), [])])
+            mt = re.search(r'collect::<(?:std::result::|core::result::)?(Result|Option|std::option::Option)<', raw)
+            if mt:
+                st.try_kind = 'Option' if 'Option' in mt.group(1) else 'Result'
+                return ('BODY', synth_static(ex, '__collect_try'), [Ref(st.new_cell(it), [])])
             return ('BODY', synth_static(ex, '__drain'), [Ref(st.new_cell(it), [])])
         raise Unsupported(c)
     if c == '__vec_to_string':
